@@ -79,19 +79,24 @@ def main(chk, replay=None):
         x = W.fresh('array' if cont == 'array' else 'sample')
         before = fingerprint(x)
         sc_list = [curve(i + 1) for i in range(ncurves)]
+        a_req, a_sc = render(req), render(scf)          # the caller's own argument objects
+        args_before = (repr(a_req), repr(a_sc), [id(f) for f in sc_list])
         try:
             with warnings.catch_warnings():
                 warnings.simplefilter('ignore')
                 if cont == 'partial':
-                    fn = functools.partial(FlowCal.transform.to_mef, sc_list=sc_list, sc_channels=render(scf))
-                    y = fn(x, render(req))
+                    fn = functools.partial(FlowCal.transform.to_mef, sc_list=sc_list, sc_channels=a_sc)
+                    y = fn(x, a_req)
                 else:
-                    y = FlowCal.transform.to_mef(x, render(req), sc_list, render(scf))
+                    y = FlowCal.transform.to_mef(x, a_req, sc_list, a_sc)
             obs = 'ok'
         except Exception as e:  # noqa
             y, obs = None, 'raises:' + type(e).__name__
         if fingerprint(x) != before:
             lab = 'input-mutated'
+        elif (repr(a_req), repr(a_sc), [id(f) for f in sc_list]) != args_before:
+            # the channel lists and the curve list belong to the caller (a calibration keeps them for every later sample)
+            lab = 'caller-argument-list-changed'
         elif exp['k'] == 'refused':
             lab = None if y is None else 'accepted'
         elif y is None:
